@@ -64,7 +64,7 @@ class C11(Property):
             else:
                 events.append(["pull_past", -rnd.choice([1, 5])])
         memory = rnd.choice([None, None, None, 0, 8, 100, 200])
-        return dict(kind=kind, p=p, payload=payload, events=events, memory=memory)
+        return dict(kind=kind, p=p, payload=payload, events=events, memory=memory, units=rnd.choice(["m", "m", "m", "degC", "", "mm/d"]))
 
     def run(self, spec):
         out = Outcome()
@@ -76,7 +76,7 @@ class C11(Property):
             grid = fm.UniformGrid((3, 4), data_location="POINTS")
             w = 1.0 + 0.125 * np.arange(12, dtype=float).reshape(3, 4)
             mask = (np.arange(12).reshape(3, 4) % 5 == 0) if spec["payload"] == "masked" else fm.Mask.FLEX
-        info = fm.Info(time=slots.T0, grid=grid, units="m", mask=mask)
+        info = fm.Info(time=slots.T0, grid=grid, units=spec.get("units", "m"), mask=mask)
         ada = make_adapter(kind, p)
         import os
 
@@ -153,7 +153,7 @@ class C11(Property):
             if isinstance(mask, np.ndarray) and not np.array_equal(np.ma.getmaskarray(mag)[0], mask):
                 out.viol("mask", f"{kind}: mask changed by interpolation", spec=spec)
                 return out
-            if got.units != fm.UNITS.Unit("m"):
+            if got.units != fm.UNITS.Unit(spec.get("units", "m")):
                 out.viol("units", f"{kind}: units {got.units}", spec=spec)
                 return out
             idx = hist.index_at_or_before(tq)
